@@ -509,9 +509,15 @@ fn server_cli_case(case: &mut Case, base: &std::path::Path) -> CaseResult {
         gp.schema_files[i].1 = crate::props::c11::render_ts_file(f, RenderOpts::canonical(), None).text;
     }
     let proj = write_project(&gp, base);
-    let run = run_cli(&proj.path(&gp.layout.root), &["generate", "--output-format", "json"]);
-    let detail = json!({"config": gp.config, "files": gp.schema_files.iter().map(|(p, t)| json!({"path": p, "text": t})).collect::<Vec<_>>(), "stderr": strip_ansi(&run.stderr), "stdout": run.stdout});
     let out_rel = norm(&format!("{}/{}", gp.layout.root, gp.layout.server_graphql_output.as_ref().unwrap()));
+    // regeneration: in half of the cases a (much longer) module from an earlier run already sits at the output path
+    let stale = case.ch.flip();
+    if stale {
+        proj.write(&out_rel, &format!("// generated by nitrogql\nexport const schema = `{}`;\n", "type Old { stale: Int }\n".repeat(2000)));
+        case.label("output-overwritten");
+    }
+    let run = run_cli(&proj.path(&gp.layout.root), &["generate", "--output-format", "json"]);
+    let detail = json!({"config": gp.config, "files": gp.schema_files.iter().map(|(p, t)| json!({"path": p, "text": t})).collect::<Vec<_>>(), "stderr": strip_ansi(&run.stderr), "stdout": run.stdout, "output_existed_before": stale});
     let js = proj.read(&out_rel);
     proj.remove();
     if run.crashed() || run.status != Some(0) {
@@ -572,5 +578,6 @@ pub fn run(env: &Env) -> i32 {
     }
     rep.campaign("roundtrip-op", env.cases(80_000, 800_000), (0, 400), op_case);
     rep.campaign("roundtrip-ts", env.cases(80_000, 800_000), (0, 400), ts_case);
+    rep.merge_fuzz_summary();
     rep.finish()
 }
